@@ -2,6 +2,10 @@ package scen
 
 import (
 	"fmt"
+	"reflect"
+	"unsafe"
+
+	plugin "github.com/hashicorp/go-plugin"
 	"strconv"
 	"strings"
 	"time"
@@ -76,4 +80,17 @@ var _ explore.Params
 func parsePat(pat string) (side, order byte, gap, start time.Duration) {
 	g, st, _ := strings.Cut(pat[2:], "@")
 	return pat[0], pat[1], ms(g), ms(st)
+}
+
+// pluginSetInUse is the plugin set a started Client dispenses from. Before fix b0c8618 Start wrote the negotiated
+// set into the caller's ClientConfig.Plugins; since then it is kept in unexported Client fields, which are read
+// here by reflection so that the oracle works on trees with and without that fix (no exported accessor exists).
+func pluginSetInUse(cl *plugin.Client, cfg *plugin.ClientConfig) plugin.PluginSet {
+	v := reflect.ValueOf(cl).Elem()
+	if f := v.FieldByName("negotiated"); f.IsValid() && f.Kind() == reflect.Bool && f.Bool() {
+		if pf := v.FieldByName("negotiatedPlugins"); pf.IsValid() && pf.CanAddr() {
+			return *(*plugin.PluginSet)(unsafe.Pointer(pf.UnsafeAddr()))
+		}
+	}
+	return cfg.Plugins
 }
